@@ -1210,6 +1210,11 @@ def qualifier_name(cls_short=None):
 def name_store(cls_short=None):
     """C07: names containing dots, spaces, brackets are stored and rendered as one identifier"""
     from . import Field, Index, Q, Table, pk
+    for nm in ("id", "ab", "T1", "x"):
+        tb = pk.Query.Tables(nm)[0] if hasattr(pk.Query, "Tables") else Q.make_tables(nm)[0]
+        sql = tb.get_sql(pk.Query.SQL_CONTEXT.copy(with_alias=True))
+        if sql != f'"{nm}"':
+            return f"Query.Tables({nm!r}) renders {sql!r}: the name is not one identifier"
     for nm in ("my.db", "a b", "x(y)", "UPPER lower", " lead", "*", "?", "%s"):
         cases = [("table", Table(nm)), ("schema", Table("t", schema=nm)), ("schema list", Table("t", schema=[nm, "s2"])),
                  ("field", Field(nm)), ("alias", Table("t").as_(nm)), ("index", Index(nm)), ("column", Q.Column(nm, "INT")),
@@ -1241,7 +1246,7 @@ def commute(cls_short, m, slot, writers):
              ("select-constant", qc._builder().select(1)),
              ("from-join", qc.from_(t).join(u).on(t.id == u.id).select(t.id))]
     cands, _kw = arg_candidates()
-    cands = [(), ("total",), (fn.Sum(u.x).as_("total"),), ("n1",), (t.foo,), (t.foo == 1,), (outer.k == t.k,), (t,), (u,), (1,),
+    cands = [(), ("total",), (fn.Sum(u.x).as_("total"),), ("n1",), (Table("abc", alias="x1"),), ("n1", 1), (t.foo,), (t.foo == 1,), (outer.k == t.k,), (t,), (u,), (1,),
              (pk.Query.from_(w_).select(w_.x),), (t.foo, 1), ("n1", 1)] + cands
 
     def outcome(thunk):
@@ -1252,7 +1257,7 @@ def commute(cls_short, m, slot, writers):
             return ("ok", str(q))
         except Exception as e:
             return ("raise", type(e).__name__)
-    small = cands[:13]
+    small = cands[:15]
     for wname in writers:
         for blabel, base in bases:
             if not hasattr(base, wname) or not hasattr(base, m):
@@ -1323,4 +1328,18 @@ def should_parameterize():
         got = p.should_parameterize(v)
         if bool(got) != want:
             return f"should_parameterize({v!r}) == {got!r}, expected {want}"
+    return None
+
+
+def json_dialect():
+    """C08: a JSON literal reads the same under every dialect context (its inner quotes are JSON's, not the identifier quotes)"""
+    from . import JSON
+    v = JSON({"k": ["v", 1]})
+    base = None
+    for name, ctx in contexts():
+        sql = v.get_sql(ctx)
+        if base is None:
+            base = sql
+        if sql != base:
+            return f"JSON literal renders {sql!r} under {name} but {base!r} under {contexts()[0][0]}"
     return None
